@@ -117,34 +117,49 @@ Definition md5 (msg : bytes) : bytes :=
 (* ------------------------------------------------------------------ RC4 *)
 Definition nthN (l : list N) (i : N) : N := nth (N.to_nat i) l 0.
 
-Fixpoint upd (l : list N) (i : nat) (v : N) : list N :=
-  match l, i with
-  | [], _ => []
-  | _ :: r, O => v :: r
-  | x :: r, S i' => x :: upd r i' v
+(* the 256-entry permutation as a binary tree indexed by the bits of the index, least significant bit first *)
+Inductive tree := Leaf (v : N) | Node (l r : tree).
+
+Fixpoint tget (t : tree) (i : N) : N :=
+  match t with
+  | Leaf v => v
+  | Node l r => if N.odd i then tget r (N.div2 i) else tget l (N.div2 i)
   end.
 
-Definition swap (s : list N) (i j : N) : list N :=
-  let si := nthN s i in let sj := nthN s j in
-  upd (upd s (N.to_nat i) sj) (N.to_nat j) si.
+Fixpoint tset (t : tree) (i v : N) : tree :=
+  match t with
+  | Leaf _ => Leaf v
+  | Node l r => if N.odd i then Node l (tset r (N.div2 i) v) else Node (tset l (N.div2 i) v) r
+  end.
+
+(* S[i] = i for i = 0..2^d-1 *)
+Fixpoint tinit (d : nat) (base step : N) : tree :=
+  match d with
+  | O => Leaf base
+  | S d' => Node (tinit d' base (2 * step)) (tinit d' (base + step) (2 * step))
+  end.
+
+Definition swap (s : tree) (i j : N) : tree :=
+  let si := tget s i in let sj := tget s j in
+  tset (tset s i sj) j si.
 
 Definition idx256 : list N := map N.of_nat (seq 0 256).
 
 (* key scheduling; the key must be non-empty (crypto/rc4 NewCipher: KeySizeError for 0 or more than 256 bytes) *)
-Definition rc4_ksa (key : bytes) : list N :=
+Definition rc4_ksa (key : bytes) : tree :=
   let kl := len key in
   fst (fold_left (fun '(s, j) i =>
-         let j' := (j + nthN s i + nthN key (i mod kl)) mod 256 in
-         (swap s i j', j')) idx256 (idx256, 0)).
+         let j' := (j + tget s i + nthN key (i mod kl)) mod 256 in
+         (swap s i j', j')) idx256 (tinit 8 0 1, 0)).
 
-Fixpoint rc4_prga (s : list N) (i j : N) (data : bytes) : bytes :=
+Fixpoint rc4_prga (s : tree) (i j : N) (data : bytes) : bytes :=
   match data with
   | [] => []
   | x :: r =>
     let i' := (i + 1) mod 256 in
-    let j' := (j + nthN s i') mod 256 in
+    let j' := (j + tget s i') mod 256 in
     let s' := swap s i' j' in
-    let k := nthN s' ((nthN s' i' + nthN s' j') mod 256) in
+    let k := tget s' ((tget s' i' + tget s' j') mod 256) in
     N.lxor x k :: rc4_prga s' i' j' r
   end.
 
